@@ -1,6 +1,7 @@
 """Entry point:  check.py <Cxx> [--tier quick|thorough] [--replay FILE]
 Checks are discovered in harness/props_*.py (each exports CHECKS: {property id: Check subclass})."""
 import importlib
+import os
 import sys
 from pathlib import Path
 
@@ -28,6 +29,31 @@ def load(prop):
     raise SystemExit(f"no check for {prop}")
 
 
+def limit_memory():
+    """a changed implementation may allocate without bound; a watchdog thread aborts this process as an
+    infrastructure error (exit 2) when its resident set exceeds VERIF_MEM_GB (default 12), instead of
+    exhausting the machine. (An address-space rlimit is unusable: lean maps far more than it touches.)"""
+    import threading
+    import time
+    cap = int(os.environ.get("VERIF_MEM_GB", "12")) * 1024 ** 3
+    page = os.sysconf("SC_PAGE_SIZE")
+
+    def watch():
+        while True:
+            try:
+                rss = int(open("/proc/self/statm").read().split()[1]) * page
+            except Exception:
+                return
+            if rss > cap:
+                sys.stderr.write(f"INFRASTRUCTURE ERROR: resident memory {rss >> 20} MiB exceeds the cap\n")
+                sys.stderr.flush()
+                os._exit(2)
+            time.sleep(0.5)
+
+    threading.Thread(target=watch, daemon=True).start()
+
+
 if __name__ == "__main__":
+    limit_memory()
     prop = sys.argv[1]
     framework.main(load(prop), sys.argv[2:])
